@@ -152,7 +152,7 @@ func specMentions(fs *FuncSpec, prop string) bool {
 	if prop == "" || hasProp(fs.Props, prop) {
 		return true
 	}
-	for _, cs := range [][]*Clause{fs.Requires, fs.Ensures, fs.PanicsIf, fs.PanicsIff} {
+	for _, cs := range [][]*Clause{fs.Requires, fs.Ensures, fs.PanicsIf, fs.PanicsIff, fs.ReturnHints} {
 		for _, c := range cs {
 			if hasProp(c.Props, prop) {
 				return true
@@ -160,9 +160,11 @@ func specMentions(fs *FuncSpec, prop string) bool {
 		}
 	}
 	for _, l := range fs.Loops {
-		for _, c := range l.Invariants {
-			if hasProp(c.Props, prop) {
-				return true
+		for _, cs := range [][]*Clause{l.Invariants, l.Hints} {
+			for _, c := range cs {
+				if hasProp(c.Props, prop) {
+					return true
+				}
 			}
 		}
 	}
@@ -391,7 +393,7 @@ func (w *World) expandRefinements(fn *ssa.Function, fs *FuncSpec) error {
 			fs.Requires = append(fs.Requires, &Clause{Kind: "requires", Label: label(c, i), Props: c.Props, E: substExpr(c.E, rf.Subst, idents), Src: c.Src + " (instantiated at " + rf.Src + ")"})
 		}
 		for i, c := range im.Ensures {
-			fs.Ensures = append(fs.Ensures, &Clause{Kind: "ensures", Label: label(c, i), Props: c.Props, Reveal: c.Reveal, E: substExpr(c.E, rf.Subst, idents), Src: c.Src + " (instantiated at " + rf.Src + ")"})
+			fs.Ensures = append(fs.Ensures, &Clause{Kind: "ensures", Label: label(c, i), Props: c.Props, Reveal: c.Reveal, Assumed: c.Assumed, E: substExpr(c.E, rf.Subst, idents), Src: c.Src + " (instantiated at " + rf.Src + ")"})
 		}
 	}
 	return nil
